@@ -613,6 +613,11 @@ def run(run: Run):
         if n == 0:
             raise AnalysisError('C05.R7', 'no global-state site of the token classes was analysed')
     run.guard('C05.R7', r7, run)
+    from .common import borrow
+    from . import c09
+    run.rule('C05.R8', 'a workbook set again is read, lexed and parsed again (setter raises the dirty flag unconditionally; shared with C09.R1)')
+    borrow(run, 'C05.R8', c09.r1, src)
+    run.floor('C05.R8', 8)
     run.floor('C05.R7', 3)
     run.floor('C05.R1', 4)
     run.floor('C05.R2', 60)
